@@ -199,6 +199,7 @@ Proof. induction ees as [|e r IH]; intro c; [reflexivity|]. simpl. destruct (rem
 
 (* ---- ChainTransformer / SettleTransformer ---- *)
 Inductive pass := PFlatten | POrder | PAbsorb.
+Inductive chain_flag_kind := AnyChanged | LastOnly.
 Inductive stage := SSpecial | SNormCmp | SSettle | SDnf.
 Definition cpass (p : pass) : cexpr -> cexpr * bool := match p with PFlatten => cflatten | POrder => corder | PAbsorb => cabsorb end.
 Definition opass (p : pass) : oexpr -> oexpr * bool := match p with PFlatten => oflatten | POrder => oorder | PAbsorb => oabsorb end.
